@@ -153,7 +153,7 @@ def build(L, c, kw, want_pal=False):
         od = p.orbit()                     # default (Jacobi) primary: a centre-of-mass particle outside the simulation
     except ValueError as ex:
         return comps, None, str(ex)
-    if o.T == o.T and od.T == od.T and abs(o.P) < 1e300 and o.e > 1e-3:      # T is ill-defined for circular orbits
+    if math.isfinite(o.T) and math.isfinite(od.T) and 0 < abs(o.P) < 1e300 and o.e > 1e-3:      # T is ill-defined for circular orbits
         dd = abs(o.T - od.T)
         if o.e < 1:
             dd = math.fmod(dd, abs(o.P)); dd = min(dd, abs(o.P) - dd)
@@ -664,6 +664,96 @@ def nbody_roundtrips(ctx, L, drv_run):
     ctx.nontrivial.add(("nbody",))
 
 
+# ----------------------------------------------------------------------------- the edges of the quantified space
+def edge_corners(ctx, L):
+    """degenerate corners: infinite arguments, signed zeros, e next to 1, primary mass at the TINY threshold, particles that
+    have no orbit (particles[0], not in a simulation), Kepler conversions at extreme M, and the simulation after an error."""
+    rb = L.rebound
+    inf = float("inf")
+    base = {"G": 1.0, "t": 0.0, "prim": [1.0, 0, 0, 0, 0, 0, 0], "m": 1e-3}
+    fails = {}
+    # -- infinite arguments: must raise or give a finite particle (x=inf gives an infinite, not a NaN, Cartesian particle)
+    for kw in (dict(a=inf), dict(a=-inf, e=2.0), dict(P=inf), dict(a=1., inc=inf), dict(a=1., Omega=inf), dict(a=1., omega=-inf),
+               dict(a=1., pomega=inf), dict(a=1., f=inf), dict(a=1., M=inf), dict(a=1., E=inf), dict(a=1., l=inf), dict(a=1., theta=inf),
+               dict(a=1., T=inf), dict(a=1., h=0.1, l=inf), dict(a=1., e=inf), dict(a=1., h=inf), dict(a=1., ix=inf)):
+        ctx.evaluations += 1
+        comps, o, err = build(L, base, kw)
+        if err is None and comps is not None and any(x != x for x in comps):
+            fails.setdefault("silent-nan:infinite-argument", {"kind": "silent-nan", "kw": {k: str(v) for k, v in kw.items()}, "particle": [str(x) for x in comps],
+                "what": "an infinite argument (%s) is accepted and silently gives a particle with NaN coordinates" % kw})
+    # -- signed zeros, e next to 1, exactly planar, a at 1e-140 / 1e140 (reb_orbit_from_particle squares distances and speeds:
+    #    beyond about 1e-154 / 1e154 its norms underflow / overflow in binary64; not judged)
+    na, nb = math.nextafter(1.0, 0.0), math.nextafter(1.0, 2.0)
+    for kw, want in ((dict(a=-0.0), "raise"), (dict(P=-0.0), "raise"), (dict(a=1., e=-0.0), "ok"), (dict(a=1., inc=-0.0, Omega=-0.0, f=-0.0), "ok"),
+                     (dict(a=1., e=na), "ok"), (dict(a=1., e=na, f=math.pi), "ok"), (dict(a=1., e=na, M=1e-3), "ok"), (dict(a=1., e=na, E=math.pi), "ok"),
+                     (dict(a=-1., e=nb), "ok"), (dict(a=-1., e=nb, M=1e-3), "ok"), (dict(a=1., e=1.0, E=0.0), "raise"), (dict(a=1., e=nb), "raise"),
+                     (dict(a=1e-140, e=0.3, f=1.0), "ok"), (dict(a=1e140, e=0.3, f=1.0), "ok"), (dict(a=1., inc=math.pi, Omega=0.3, omega=0.2, f=0.1), "ok")):
+        ctx.evaluations += 1
+        comps, o, err = build(L, base, kw)
+        if want == "raise" and err is None:
+            fails.setdefault("edge:accepted", {"kind": "edge", "kw": kw, "what": "edge input %s must be rejected" % kw, "particle": comps})
+        if want == "ok":
+            if err is not None or comps is None or not finite(*comps):
+                fails.setdefault("edge:rejected-or-nonfinite", {"kind": "edge", "kw": kw, "error": err, "particle": comps,
+                                 "what": "valid edge input %s is rejected or gives a non-finite particle" % kw})
+            elif o is not None and "e" in kw and abs(kw["e"]) > 0 and not (abs(o.e - kw["e"]) < 1e-6 and abs(o.a - kw["a"]) < 1e-5 * abs(kw["a"]) * (1 + 1 / max(1e-300, abs(1 - kw["e"])) * 1e-9)):
+                if abs(1 - kw["e"]) > 1e-12:      # next to e = 1 the read-back of a loses all digits (a = -mu/(v^2 - 2mu/d)): not judged
+                    fails.setdefault("edge:roundtrip", {"kind": "edge", "kw": kw, "got": (o.a, o.e), "what": "a, e not read back at the edge %s" % kw})
+    # -- a primary whose mass is exactly the threshold TINY = 1e-308: what can be created must be readable
+    for pmass in (1e-308, math.nextafter(1e-308, 1.0), 1e-307):
+        ctx.evaluations += 1
+        sim = rb.Simulation(); sim.add(m=pmass)
+        try:
+            sim.add(a=1.0, e=0.1)
+        except ValueError:
+            continue
+        try:
+            o = sim.particles[1].orbit(primary=sim.particles[0])
+            if not (abs(o.a - 1.0) < 1e-9):
+                fails.setdefault("edge:primary-mass-TINY", {"kind": "edge", "primary_mass": pmass, "what": "orbit about a primary of mass %r not read back" % pmass, "a": o.a})
+        except ValueError as ex:
+            fails.setdefault("edge:primary-mass-TINY", {"kind": "edge", "primary_mass": pmass,
+                "what": "a particle can be created around a primary of mass %r but its orbit cannot be read back (%s)" % (pmass, ex)})
+    # -- particles without an orbit must raise, never return garbage
+    sim = rb.Simulation(); sim.add(m=1.); sim.add(a=1.)
+    for label, fn in (("particles[0].a", lambda: sim.particles[0].a), ("particles[0].orbit()", lambda: sim.particles[0].orbit()),
+                      ("Particle(m=1).orbit()", lambda: rb.Particle(m=1.).orbit()), ("Particle().T", lambda: rb.Particle(m=1., x=1.).T)):
+        ctx.evaluations += 1
+        try:
+            v = fn()
+            fails.setdefault("edge:no-orbit", {"kind": "edge", "what": "%s returned %r instead of raising" % (label, v)})
+        except (ValueError, RuntimeError, AttributeError):
+            pass
+    # -- the same simulation after an error has been raised: nothing added, and it keeps working like a fresh one
+    for bad in (dict(a=1., e=1.), dict(a=1., x=1.), dict(a=0.), dict(a=1., f=1., M=1.), dict(a=1., e=float("nan")), dict(a=-1., e=2., f=3.)):
+        ctx.evaluations += 1
+        s1 = rb.Simulation(); s1.add(m=1.); s1.add(m=1e-3, a=1., e=0.1, f=0.4)
+        s2 = rb.Simulation(); s2.add(m=1.); s2.add(m=1e-3, a=1., e=0.1, f=0.4)
+        n0 = s1.N
+        try:
+            s1.add(**bad)
+            fails.setdefault("edge:after-error", {"kind": "edge", "kw": {k: str(v) for k, v in bad.items()}, "what": "invalid request %s accepted" % bad})
+            continue
+        except ValueError:
+            pass
+        good = dict(m=1e-4, a=2.5, e=0.2, inc=0.3, Omega=1., omega=2., M=0.7)
+        s1.add(**good); s2.add(**good)
+        a, b = s1.particles[s1.N - 1], s2.particles[s2.N - 1]
+        if s1.N != n0 + 1 or (a.x, a.y, a.z, a.vx, a.vy, a.vz) != (b.x, b.y, b.z, b.vx, b.vy, b.vz) or s1.particles[1].a != s2.particles[1].a:
+            fails.setdefault("edge:after-error", {"kind": "edge", "kw": {k: str(v) for k, v in bad.items()}, "N": s1.N,
+                             "what": "after the rejected request %s the simulation does not behave like a fresh one" % bad})
+    # -- Kepler conversions at the edges of the double range: finite M gives finite, in-range results
+    for e, M in ((0.5, 1e15), (0.5, -1e15), (0.5, 1e300), (0.0, 1e300), (na, 1e-9), (na, math.pi), (na, 1e300), (nb, 1e-9), (nb, -1e-9),
+                 (1.5, 1e300), (1.5, -1e300), (50.0, 1e-300), (5e-324, 1.0), (0.0, -0.0), (1.5, -0.0), (0.9999, 2 * math.pi), (0.5, 5e-324)):
+        ctx.evaluations += 1
+        E = L.clib.reb_M_to_E(e, M); f = L.clib.reb_M_to_f(e, M)
+        if not finite(E, f) or not (0 <= f < TP) or (e < 1 and not (0 <= E < TP)):
+            fails.setdefault("edge:kepler", {"kind": "edge", "e": e, "M": M, "E": E, "f": f, "what": "reb_M_to_E/reb_M_to_f(%r, %r) not finite / out of range" % (e, M)})
+    ctx.nontrivial.add(("edges",))
+    for key, rep in fails.items():
+        ctx.violation(key, rep, True, "edge of the domain: " + rep["what"])
+
+
 def search(ctx, L):
     nk = kepler_search(ctx, L)
     rng = ctx.rng
@@ -699,6 +789,7 @@ def search(ctx, L):
     reject_sweep(ctx, L)
     element_api(ctx, L)
     nbody_roundtrips(ctx, L, None)
+    edge_corners(ctx, L)
     ctx.extra["searcher"] = {"kepler_points": nk, "roundtrips": nrt, "roundtrip_classes": kinds}
 
 
